@@ -72,6 +72,13 @@ var (
 // used only by bin/mutcheck to run a check against a scratch worktree carrying a
 // seeded change without touching /repo or the committed evidence.
 func init() {
+	// the machinery lives next to the binary (<verif>/bin/symgo): a snapshot of
+	// /verif run from elsewhere then uses its own props, harnesses and findings
+	if exe, err := os.Executable(); err == nil {
+		if d := filepath.Dir(filepath.Dir(exe)); fileExists(filepath.Join(d, "props")) && fileExists(filepath.Join(d, "harness")) {
+			verifDir, outDir = d, d
+		}
+	}
 	if v := os.Getenv("SYMGO_REPO"); v != "" {
 		repoDir = v
 	}
@@ -669,6 +676,11 @@ func guardModFiles() func() {
 			}
 		}
 	}
+}
+
+func fileExists(p string) bool {
+	_, err := os.Stat(p)
+	return err == nil
 }
 
 func goCache() string {
